@@ -1,5 +1,6 @@
 //! Bounded stand-in / failing-input search for unit U8 (union-find) — NOT a proof.
 //! host: src/egraph/find.rs
+//! functions: AppliedId::apply_slotmap AppliedId::apply_slotmap_partial AppliedId::new EGraph::chain_pai EGraph::proven_proven_find_applied_id EGraph::unionfind_get_impl
 //! Bound: 30000 pseudo-random forests (fixed seed) over at most 4 ids and slots $0..$2 (leaders may have lost slots their followers still mention), every start id,
 //! compared with an independent BTreeMap implementation of "follow the entries and compose the maps".
 use crate::*;
